@@ -1,8 +1,8 @@
 PROP = dict(
     id="C09",
-    lean_modules=["TongoProofs.C09"],
+    lean_modules=["TongoProofs.C09", "TongoProofs.C09Tlb"],
     gen=[],
-    spec_ops=("tl.enc", "tl.dec", "tl.fenc", "tl.fdec", "tlc.req", "tl.ans", "tl.reqdec"),
+    spec_ops=("tl.enc", "tl.dec", "tl.fenc", "tl.fdec", "tlc.req", "tl.ans", "tl.reqdec", "tlbs.enc"),
     rule="random TL schemas (3..40 declarations: liteServer.error, single-constructor types, sum types of 2..5 "
          "constructors, 1..8 functions; fields of every builtin type, bare and boxed references, vectors of builtins / "
          "declared types / vectors, conditional fields flag.N?T over bits 0..31 with up to three flag fields named "
@@ -26,19 +26,27 @@ PROP = dict(
         "CamelCase",
     ],
     partial=[
-        "TL-B half (tlb/parser GenerateGolangTypes): checked by DIRECT ORACLES ONLY (go.tlbc.*): random TL-B schemas over "
-        "fixed ints, ## n, bitsN, Bool, Coins, Maybe, Maybe ^, Either (incl. reference sides), ^T, ^Cell, $ and # tagged "
-        "unions; generated twice (identical), compiled, driven through tlb.Marshal/Unmarshal on random values and "
-        "compared cell-for-cell (hash) with the harness' reference encoder written from the TL-B rules. There is no Lean "
-        "model of TL-B in this property and no theorem (tlb_schema_sound of the design is NOT delivered); HashmapE and "
-        "implicit fields are not generated",
-        "no theorem about generator.go (string templating over a participle AST)",
+        "no theorem about generator.go / tlb/parser/generator.go themselves (string templating over a participle AST): "
+        "they are tied to the proved semantics by translation validation over the sampled schemas",
+        "TL-B half: the model covers the subset uintN intN (## n) # bitsN Bool Coins Grams (VarUInteger n) MsgAddress "
+        "Cell ^T (Maybe T) (Maybe ^T) (Either X Y) (HashmapE n X: only the EMPTY dictionary is a value in the model, C05 "
+        "owns the rest) with $/# tagged unions; tlb_schema_sound needs declarations to refer to EARLIER types only "
+        "(no recursive TL-B types); tlb_schema_roundtrip carries C03's decidable well-formedness check of the "
+        "descriptors as a premise, evaluated per schema (op tlbs.ok) - it is not proved for the whole subset",
+        "abi/schemas -> abi/*.go: the repository's abi/generator.go cannot regenerate the checked-in files (it panics on "
+        "the checked-in schemas: `not defined type: uint257`, get-method stack type of nft_sale.xml) - reported by the "
+        "oracle go.regen.abi as a known finding; the checked-in abi structs are not compared with their declarations",
     ],
     level="proof",
     level_text="proof for the schema semantics (tl_decode_encode, tl_prefix_free, tl_layout_* for every well-formed "
                "schema, by functional induction on the encoder); translation validation for the compiler: every "
                "sampled schema is compiled, built and executed, and each answer is compared with the proved "
-               "semantics evaluated by the Lean driver on the same schema text",
+               "semantics evaluated by the Lean driver on the same schema text. TL-B half: tlb_schema_sound (for every "
+               "schema of the subset the reflection codec on the descriptor a declaration denotes writes exactly the "
+               "bits and references the declaration prescribes - induction over declarations into C04's matcher) and "
+               "tlb_schema_roundtrip (from C03); the compiler is tied to them per generated program: the reflection "
+               "descriptor of every GENERATED struct equals goBody of its declaration (op tlbs.desc, exact), the cells "
+               "it produces equal the schema semantics (spec op tlbs.enc) and decode back (tlbs.dec)",
     line_timeout="300s",
     go_jobs=4,
     search_cap=60000,
